@@ -441,7 +441,9 @@ func runC04(r *core.Run) {
 	{
 		pays := []string{"<a href=\"javascript:alert(1)\">", "<img src=javascript:alert(1)>", "<a href='vbscript:x'>y</a>", "<a\nhref=\"javascript:x\">", "\"><a href=\"javascript:x\">", "<script src=\"file:///x\">",
 			// the three places where a browser ends a comment before "-->"
-			"x --!><a href=\"javascript:x\">y</a>", "><a href=\"javascript:x\">", "-><img src=javascript:x>"}
+			"x --!><a href=\"javascript:x\">y</a>", "><a href=\"javascript:x\">", "-><img src=javascript:x>",
+			// the same markup spelled with character references (lower-case, legacy upper-case, decimal, hexadecimal)
+			"&lt;a href=&quot;javascript:x&quot;&gt;", "&LT;a href=&QUOT;javascript:x&QUOT;&GT;y", "&#60;img src=&#34;vbscript:x&#34;&#62;", "&#x3c;a href=&#x22;javascript:x&#x22;&#x3E;", "&lt a href=&quot javascript:x&quot&gt"}
 		shapes := []string{"§", "x\n§", "§\nx", "x\n§\ny", "§ §", "x\n§\n§\ny"}
 		for _, cn := range []string{"core", "all+cjk+attr+autoid", "all+attr+autoid+xhtml+hardwraps"} {
 			cfg := core.MustCfg(cn)
